@@ -136,6 +136,7 @@ def rule_atomic_scalars(rep, idx):
 
 
 MUTANTS = [
+    ('worker-context-without-variables', 'src/interpreter/Context.h', 'Context(Context& ctxt) : returnValues(ctxt.returnValues), args(ctxt.args), variables(ctxt.variables) {}', 'Context(Context& ctxt) : returnValues(ctxt.returnValues), args(ctxt.args) {}', 'R2'),
     ('parallel-scan-shares-context', 'src/interpreter/Engine.cpp', '''            for (const auto& tuple : *it) {
                 newCtxt[cur.getTupleId()] = tuple.data();
                 if (!execute(shadow.getNestedOperation(), newCtxt)) {
@@ -183,6 +184,59 @@ RamDomain Engine::evalEstimateJoinSize(''', 'R2'),
 ]
 
 
+def rule_context_copy(rep, ctxu):
+    """R2: the private Context of a worker is made by Context(Context&).  Whatever the enclosing evaluation established through the context's
+    setters (subroutine arguments, return values, program variables such as the loop counter) must be carried into the copy -- otherwise an
+    expression evaluates differently inside a parallelised loop than in a sequential one."""
+    rec = ctxu.record('souffle::interpreter::Context') or ctxu.record('Context')
+    fs = [f for f in ctxu.functions if f.d.get('cls') == 'Context']
+    cc = [f for f in fs if f.d.get('ctor') and len(f.d['params']) == 1 and 'Context' in f.d['params'][0]['t']]
+    if rec is None or not cc:
+        rep.analysis_broken('interpreter::Context / its scope-copy constructor not found')
+        return
+    fields = {fl['name'] for fl in rec.get('fields', [])}
+    set_by_setter = {}
+    for f in fs:
+        if f.name.startswith('set') and f.d['params']:
+            for m in f.walk():
+                tgt = None
+                if m['k'] in ('BinaryOperator', 'CXXOperatorCallExpr') and m.get('op') == '=':
+                    tgt = strip((kids(m) if m['k'] == 'BinaryOperator' else call_args(m))[0], casts=True)
+                    while tgt['k'] in ('CXXOperatorCallExpr', 'ArraySubscriptExpr') and kids(tgt):
+                        tgt = strip((call_args(tgt) if tgt['k'] == 'CXXOperatorCallExpr' else kids(tgt))[0], casts=True)
+                if tgt is not None and tgt.get('member') in fields:
+                    set_by_setter[tgt['member']] = f.name
+    copied = {i.get('member') for i in cc[0].d.get('inits', [])}
+    for mem, setter in sorted(set_by_setter.items()):
+        ok = mem in copied
+        rep.ob('R2-private-context-carries-established-state', 'Context::%s' % mem, ok, cc[0].where,
+               '' if ok else 'Context::%s (established by %s) is not copied into a worker\'s private context: what reads it (e.g. the iteration counter) '
+               'evaluates to the default inside every parallelised loop, so results depend on the thread count' % (mem, setter))
+    rep.floor('R2-context-setters', len(set_by_setter), 3)
+
+
+def rule_reduction_order(rep, syn):
+    """R3: an OpenMP reduction combines per-thread partial results in an unspecified grouping; the result is independent of the thread count
+    only if the reduction operator is associative and commutative ON THE ACCUMULATOR TYPE.  min/max are, integer + (wrapping) is, float + is not."""
+    aggS = aggtables.synthesiser_tables(syn, rep)
+    if aggS is None:
+        return
+    decl = aggtables.declared_types(syn, rep)
+    n = 0
+    for op in aggtables.ops_of(syn):
+        red = aggS['reduction'].get(op)
+        if red != '+':
+            continue
+        n += 1
+        isfloat = op.startswith('F') or (decl.get(op) in ('F', 'Float'))
+        if op in ('MEAN',):
+            isfloat = True
+        rep.ob('R3-reduction-operator-order-insensitive', op, not isfloat, aggS['where'].get(('reduction', op), ''),
+               '' if not isfloat else 'the parallel %s reduces a floating-point accumulator with `+`: float addition is not associative, the sum depends on '
+               'how the tuples are split over threads' % op)
+    rep.floor('R3-plus-reductions', n, 4)
+
+
 def analyse(rep):
     parallel_guard.check(rep, need=('GuardedInsert', 'Erase'), rewrites=True)
     eng, syn, idx = facts.extract([
@@ -193,6 +247,10 @@ def analyse(rep):
     rule_regions(rep, eng)
     rule_reduction(rep, syn)
     rule_atomic_scalars(rep, idx)
+    cx, = facts.extract([('src/interpreter/Engine.cpp', r'interpreter/Context\.h$', r'.*')])
+    rep.add_units([cx])
+    rule_context_copy(rep, cx)
+    rule_reduction_order(rep, syn)
 
 
 def run(tier='quick'):
